@@ -350,6 +350,15 @@ def finish(prop, tier, t0, cov, violations, known, broken):
         broken += rbroken
         for pred, detail, path in rviol:
             violations.append(({"op": "readrace", "pre": "", "field": pred, "want": "", "got": str(detail)[:300], "cfg": None}, path))
+    if prop == "C08" and not broken:
+        # the policies evict a stale node of the key while a load is in flight (directed scenario, SweepHist.tla)
+        import c13check
+        rn, rviol, rbroken = c13check.read_race_half(prop, tier)
+        cov["stale_eviction_scenarios"] = rn
+        cov["traces_validated_against_impl"] += rn
+        broken += rbroken
+        for pred, detail, path in rviol:
+            violations.append(({"op": "readrace", "pre": "", "field": pred, "want": "", "got": str(detail)[:300], "cfg": None}, path))
     if prop == "C05" and not broken:
         # a write finds the entry expired while a reader extends the deadline of the node being replaced (SweepHist.tla)
         import c13check
